@@ -1,13 +1,17 @@
 //! TALK requests (C20): generator of respond / drop / hold / shutdown orders over concurrently
 //! delivered requests, driver of the real `TalkRequest` objects (built by the hook constructor or
-//! by the real `Service::handle_rpc_request`), the direct monitor and the Coq case files for the
-//! correspondence with Model/Talk.v.
+//! by the real `Service::handle_rpc_request`, called directly or by the real event loop of a
+//! service whose routing table holds records of the requesting peers), the direct monitor and the
+//! Coq case files for the correspondence with Model/Talk.v.
 use crate::common::*;
+use crate::service::{make_idents, settle, status, Ident, Svc};
 use discv5::enr::{CombinedKey, NodeId};
+use discv5::verif::service::{HandlerIn, HandlerOut, Request, RequestBody, RequestId, ResponseBody, ScriptedService};
 use discv5::verif::talk::{channel, HandlerEnd, Observed, TalkService, TalkSource};
-use discv5::{Enr, NodeAddress, ResponseError, TalkRequest};
+use discv5::{ConfigBuilder, Discv5, Enr, Event, ListenConfig, NodeAddress, ResponseError, TalkRequest};
 use std::collections::{BTreeMap, BTreeSet};
-use std::net::SocketAddr;
+use std::net::{IpAddr, Ipv4Addr, Ipv6Addr, SocketAddr};
+use tokio::sync::mpsc;
 
 #[derive(Clone, Debug)]
 pub enum Op {
@@ -18,10 +22,103 @@ pub enum Op {
     Shutdown,
 }
 
+/// Where the request objects come from.
+#[derive(Clone, Copy, PartialEq, Eq, Debug)]
+pub enum Via {
+    /// the hook constructor `TalkRequest::verif_new`
+    Hook,
+    /// `Service::handle_rpc_request` called directly on a service with an empty routing table
+    Service,
+    /// the real event loop (`Service::start`) fed with `HandlerOut::Request`, on a service whose
+    /// routing table holds records of (some of) the requesting peers
+    Loop,
+}
+
 pub struct GenCase {
-    pub via_service: bool,
+    pub via: Via,
+    /// `Via::Loop`: dual-stack listen configuration (otherwise IPv4)
+    pub dual: bool,
+    /// `Via::Loop`: (identity, record variant) of the peers in the routing table, see `peer_records`
+    pub table: Vec<(usize, usize)>,
     pub ops: Vec<Op>,
     pub kind: &'static str,
+}
+
+fn gen_via(rng: &mut Rng) -> (Via, bool, Vec<(usize, usize)>) {
+    match rng.weighted(&[3, 2, 3]) {
+        0 => (Via::Hook, false, vec![]),
+        1 => (Via::Service, false, vec![]),
+        _ => {
+            let dual = rng.chance(1, 3);
+            let mut table = vec![];
+            for p in 0..NIDENT {
+                if rng.chance(4, 5) {
+                    table.push((p, rng.weighted(&[4, 2, 1, 2, 1])));
+                }
+            }
+            (Via::Loop, dual, table)
+        }
+    }
+}
+
+/// identity of the sender of each entry of `addresses()` (entries 1 and 2 share the node id)
+const ADDR_IDENT: [usize; 5] = [0, 1, 1, 2, 3];
+const NIDENT: usize = 4;
+const NVARIANT: usize = 5;
+
+/// The addresses of `addresses()` with node ids that have keys (a record in the routing table
+/// must be signed by the key its node id derives from).
+fn loop_addresses(idents: &[Ident]) -> Vec<NodeAddress> {
+    addresses()
+        .into_iter()
+        .enumerate()
+        .map(|(i, a)| NodeAddress { socket_addr: a.socket_addr, node_id: idents[ADDR_IDENT[i]].node_id() })
+        .collect()
+}
+
+/// The records a peer may have in the routing table, relative to the socket its TALKREQs come
+/// from (`src`, the first entry of `addresses()` with its identity):
+/// 0 = another IP and port, 1 = the same IP and another port, 2 = exactly `src`,
+/// 3 = an IPv4 and an IPv6 endpoint, both different from `src`, 4 = no UDP endpoint at all.
+fn peer_records(idents: &[Ident]) -> Vec<Vec<Enr>> {
+    let addrs = addresses();
+    (0..NIDENT)
+        .map(|p| {
+            let src = addrs[ADDR_IDENT.iter().position(|q| *q == p).unwrap()].socket_addr;
+            let key = idents[p].key();
+            let other4 = Ipv4Addr::new(10, 77, 0, p as u8 + 1);
+            let other6 = Ipv6Addr::new(0x2001, 0xdb8, 0x77, 0, 0, 0, 0, p as u16 + 1);
+            (0..NVARIANT)
+                .map(|v| {
+                    let mut b = Enr::builder();
+                    match (v, src.ip()) {
+                        (0, _) => {
+                            b.ip4(other4).udp4(9100 + p as u16);
+                        }
+                        (1, IpAddr::V4(ip)) => {
+                            b.ip4(ip).udp4(src.port() + 1000);
+                        }
+                        (1, IpAddr::V6(ip)) => {
+                            b.ip6(ip).udp6(src.port() + 1000);
+                        }
+                        (2, IpAddr::V4(ip)) => {
+                            b.ip4(ip).udp4(src.port());
+                        }
+                        (2, IpAddr::V6(ip)) => {
+                            b.ip6(ip).udp6(src.port());
+                        }
+                        (3, _) => {
+                            b.ip4(other4).udp4(9200 + p as u16).ip6(other6).udp6(9300 + p as u16);
+                        }
+                        _ => {
+                            b.ip4(other4);
+                        }
+                    }
+                    b.build(&key).expect("record")
+                })
+                .collect()
+        })
+        .collect()
 }
 
 fn addresses() -> Vec<NodeAddress> {
@@ -121,7 +218,8 @@ fn systematic(mut idx: u64, n: usize, rng: &mut Rng) -> GenCase {
             ops.push(Op::Drop(h));
         }
     }
-    GenCase { via_service: rng.chance(1, 2), ops, kind: "systematic" }
+    let (via, dual, table) = gen_via(rng);
+    GenCase { via, dual, table, ops, kind: "systematic" }
 }
 
 fn random_case(rng: &mut Rng, thorough: bool) -> GenCase {
@@ -170,7 +268,8 @@ fn random_case(rng: &mut Rng, thorough: bool) -> GenCase {
     for h in live {
         ops.push(Op::Drop(h));
     }
-    GenCase { via_service: rng.chance(1, 2), ops, kind: "random" }
+    let (via, dual, table) = gen_via(rng);
+    GenCase { via, dual, table, ops, kind: "random" }
 }
 
 pub fn coq_op(op: &Op) -> String {
@@ -200,6 +299,76 @@ pub struct CaseResult {
 enum Source {
     Direct(TalkSource),
     Service(Box<TalkService>),
+    Loop(Box<LoopService>),
+}
+
+/// The scripted service (real `Service::start` loop on the harness' runtime) taken apart: the
+/// harness keeps the handler's sending end and the event stream; the handler's receiving end is
+/// the `End::Raw` of the case.
+struct LoopService {
+    _discv5: Discv5,
+    to_service: mpsc::Sender<HandlerOut>,
+    events: mpsc::Receiver<Event>,
+    task: tokio::task::JoinHandle<()>,
+}
+
+impl LoopService {
+    /// Reports a TALKREQ as the handler does and returns the request object that the service's
+    /// event loop (`handle_rpc_request`) delivers on the event stream.
+    fn deliver(&mut self, rt: &tokio::runtime::Runtime, from: NodeAddress, id: &[u8], protocol: Vec<u8>, body: Vec<u8>) -> Option<TalkRequest> {
+        let req = Request { id: RequestId(id.to_vec()), body: RequestBody::Talk { protocol, request: body } };
+        if self.to_service.try_send(HandlerOut::Request(from, Box::new(req))).is_err() {
+            return None;
+        }
+        rt.block_on(settle());
+        let mut found = None;
+        while let Ok(ev) = self.events.try_recv() {
+            if let Event::TalkRequest(r) = ev {
+                found = Some(r);
+            }
+        }
+        found
+    }
+}
+
+/// The handler's end of the service-to-handler channel.
+enum End {
+    Hook(HandlerEnd),
+    Raw(mpsc::UnboundedReceiver<HandlerIn>),
+}
+
+impl End {
+    fn drain(&mut self) -> Vec<Observed> {
+        match self {
+            End::Hook(h) => h.drain(),
+            End::Raw(rx) => {
+                let mut out = vec![];
+                while let Ok(m) = rx.try_recv() {
+                    out.push(match m {
+                        HandlerIn::Response(node_address, response) => {
+                            let response = *response;
+                            match response.body {
+                                ResponseBody::Talk { response: payload } => Observed::TalkResponse { node_address, id: response.id.0.clone(), payload },
+                                other => Observed::Other(format!("response {}", other)),
+                            }
+                        }
+                        HandlerIn::Request(..) => Observed::Other("request".into()),
+                        _ => Observed::Other("other".into()),
+                    });
+                }
+                out
+            }
+        }
+    }
+}
+
+/// What a run needs besides the case: addresses, identities, records, the runtime.
+pub struct Ctx {
+    addrs: Vec<NodeAddress>,
+    loop_addrs: Vec<NodeAddress>,
+    records: Vec<Vec<Enr>>,
+    local: Local,
+    rt: tokio::runtime::Runtime,
 }
 
 struct Local {
@@ -220,14 +389,53 @@ fn make_local() -> Local {
 /// drops while the channel is up produces exactly one TALKRESP (same id, same node address, the
 /// given payload / the empty payload) at that moment and nothing later; holding produces nothing;
 /// after the shutdown `respond` is `Err(ChannelClosed)`, dropping is silent, nothing panics.
-fn run_case(id: u64, g: &GenCase, addrs: &[NodeAddress], local: &Local, hist: &mut Hist) -> CaseResult {
-    let (mut source, end): (Source, HandlerEnd) = if g.via_service {
-        let key = CombinedKey::secp256k1_from_bytes(&mut local.key_bytes.clone()).unwrap();
-        let (s, e) = TalkService::new(local.enr.clone(), key);
-        (Source::Service(Box::new(s)), e)
-    } else {
-        let (s, e) = channel();
-        (Source::Direct(s), e)
+fn run_case(id: u64, g: &GenCase, ctx: &Ctx, hist: &mut Hist) -> CaseResult {
+    let local = &ctx.local;
+    let addrs: &[NodeAddress] = if g.via == Via::Loop { &ctx.loop_addrs } else { &ctx.addrs };
+    // per address: what the routing table says about the sender (Via::Loop)
+    let mut advertised: Vec<&'static str> = vec!["unknown_peer"; addrs.len()];
+    let (mut source, end): (Source, End) = match g.via {
+        Via::Service => {
+            let key = CombinedKey::secp256k1_from_bytes(&mut local.key_bytes.clone()).unwrap();
+            let (s, e) = TalkService::new(local.enr.clone(), key);
+            (Source::Service(Box::new(s)), End::Hook(e))
+        }
+        Via::Hook => {
+            let (s, e) = channel();
+            (Source::Direct(s), End::Hook(e))
+        }
+        Via::Loop => {
+            let key = CombinedKey::secp256k1_from_bytes(&mut local.key_bytes.clone()).unwrap();
+            let listen = if g.dual {
+                ListenConfig::DualStack { ipv4: Ipv4Addr::LOCALHOST, ipv4_port: 9000, ipv6: Ipv6Addr::LOCALHOST, ipv6_port: 9001 }
+            } else {
+                ListenConfig::Ipv4 { ip: Ipv4Addr::LOCALHOST, port: 9000 }
+            };
+            let config = ConfigBuilder::new(listen).build();
+            let Svc { s, events } = ctx.rt.block_on(Svc::new(local.enr.clone(), key, config));
+            let ScriptedService { discv5, kbuckets, to_service, from_service, task, .. } = s;
+            for (p, v) in &g.table {
+                let enr = ctx.records[*p][*v].clone();
+                let r = kbuckets.write().insert_or_update(&enr.node_id().into(), enr.clone(), status(true, false));
+                if !matches!(r, discv5::kbucket::InsertResult::Inserted) {
+                    hist.add("loop:record_not_inserted");
+                    continue;
+                }
+                for (i, a) in addrs.iter().enumerate() {
+                    if ADDR_IDENT[i] == *p {
+                        let ends: Vec<SocketAddr> = enr.udp4_socket().map(SocketAddr::V4).into_iter().chain(enr.udp6_socket().map(SocketAddr::V6)).collect();
+                        advertised[i] = if ends.is_empty() {
+                            "known_peer_whose_record_has_no_endpoint"
+                        } else if ends.contains(&a.socket_addr) {
+                            "known_peer_whose_record_advertises_the_source_endpoint"
+                        } else {
+                            "known_peer_whose_record_advertises_another_endpoint"
+                        };
+                    }
+                }
+            }
+            (Source::Loop(Box::new(LoopService { _discv5: discv5, to_service, events, task })), End::Raw(from_service))
+        }
     };
     let mut end = Some(end);
     let mut objs: Vec<Option<TalkRequest>> = vec![];
@@ -251,6 +459,10 @@ fn run_case(id: u64, g: &GenCase, addrs: &[NodeAddress], local: &Local, hist: &m
                 let req = match &mut source {
                     Source::Direct(s) => Some(s.talk_request(rid, addrs[*a].clone(), b"proto".to_vec(), vec![1, 2, 3])),
                     Source::Service(s) => s.deliver(addrs[*a].clone(), rid, b"proto".to_vec(), vec![1, 2, 3]),
+                    Source::Loop(s) => {
+                        hist.add(&format!("deliver:from_{}", advertised[*a]));
+                        s.deliver(&ctx.rt, addrs[*a].clone(), rid, b"proto".to_vec(), vec![1, 2, 3])
+                    }
                 };
                 match req {
                     Some(r) => {
@@ -348,10 +560,12 @@ fn run_case(id: u64, g: &GenCase, addrs: &[NodeAddress], local: &Local, hist: &m
         };
         e.n(arrived.len() as u64);
         let mut got: Vec<(Vec<u8>, usize, Vec<u8>)> = vec![];
+        let mut dest: Vec<NodeAddress> = vec![];
         for m in &arrived {
             match m {
                 Observed::TalkResponse { node_address, id, payload } => {
                     let a = addr_index(node_address);
+                    dest.push(node_address.clone());
                     e.0.push(id_num(id).to_string());
                     e.n(a as u64).n(payload.len() as u64);
                     for b in payload {
@@ -380,6 +594,19 @@ fn run_case(id: u64, g: &GenCase, addrs: &[NodeAddress], local: &Local, hist: &m
                     ));
                 } else if got.len() > 1 {
                     failures.push(("a request produced more than one response".into(), i));
+                } else if dest[0] != addrs[w.1] {
+                    // the destination of the TALKRESP against the node address the TALKREQ was delivered from
+                    failures.push((
+                        if dest[0].node_id != addrs[w.1].node_id {
+                            "the response goes to another node id than the one the TALKREQ came from".to_string()
+                        } else {
+                            format!(
+                                "the response is addressed to {} although the TALKREQ came from {} (same node id; routing table: {})",
+                                dest[0].socket_addr, addrs[w.1].socket_addr, advertised[w.1]
+                            )
+                        },
+                        i,
+                    ));
                 } else if got[0].0 != w.0 || got[0].1 != w.1 {
                     failures.push(("the response carries another request id or goes to another node address".into(), i));
                 } else if got[0].2 != w.2 {
@@ -423,13 +650,23 @@ fn run_case(id: u64, g: &GenCase, addrs: &[NodeAddress], local: &Local, hist: &m
         }
     }
     drop(objs);
+    if let Source::Loop(s) = &source {
+        s.task.abort();
+    }
     if max_live >= 2 {
         hist.add("case:two_or_more_concurrent");
     }
     if live_at_shutdown > 0 {
         hist.add("case:shutdown_with_live_requests");
     }
-    hist.add(if g.via_service { "case:via_service_handle_rpc_request" } else { "case:via_hook_constructor" });
+    hist.add(match g.via {
+        Via::Service => "case:via_service_handle_rpc_request",
+        Via::Hook => "case:via_hook_constructor",
+        Via::Loop => "case:via_service_event_loop_with_routing_table",
+    });
+    if g.via == Via::Loop && g.dual {
+        hist.add("case:loop_dual_stack");
+    }
     hist.add(&format!("case:{}", g.kind));
     let coq = format!("({}, [{}])", id, steps.join(";\n  "));
     CaseResult { coq, failures, nontrivial: max_live >= 2 || live_at_shutdown > 0, canon: h, steps: steps.len() }
@@ -509,9 +746,10 @@ pub fn main(args: &[String]) {
     }
     // the service constructor creates tokio objects; a runtime context is entered for the run
     let rt = tokio::runtime::Builder::new_current_thread().enable_all().build().unwrap();
-    let _guard = rt.enter();
-    let addrs = addresses();
-    let local = make_local();
+    let idents = make_idents(NIDENT);
+    let ctx = Ctx { addrs: addresses(), loop_addrs: loop_addresses(&idents), records: peer_records(&idents), local: make_local(), rt };
+    let _guard = ctx.rt.enter();
+    let addrs = ctx.addrs.clone();
     let max_n = if o.thorough { 4 } else { 3 };
     let sys_total: u64 = (1..=max_n).map(sys_count).sum();
     let mut sum = Summary::new("talk");
@@ -535,7 +773,7 @@ pub fn main(args: &[String]) {
         } else {
             random_case(&mut rng, o.thorough)
         };
-        let r = run_case(idx, &g, &addrs, &local, &mut sum.hist);
+        let r = run_case(idx, &g, &ctx, &mut sum.hist);
         sum.evaluations += 1;
         sum.steps += r.steps as u64;
         if r.nontrivial && canon.insert(r.canon) {
@@ -545,7 +783,8 @@ pub fn main(args: &[String]) {
             sum.samples.push(J::obj(vec![
                 ("case", J::I(idx as i64)),
                 ("seed", J::I(o.seed as i64)),
-                ("via_service", J::B(g.via_service)),
+                ("via", J::s(format!("{:?}", g.via))),
+                ("routing_table", J::s(format!("{:?}", g.table))),
                 ("ops", J::A(g.ops.iter().map(|op| J::s(coq_op(op))).collect())),
             ]));
         }
@@ -571,7 +810,9 @@ pub fn main(args: &[String]) {
                     ("thorough", J::B(o.thorough)),
                     ("step", J::I(*step as i64)),
                     ("what", J::s(desc.clone())),
-                    ("via_service", J::B(g.via_service)),
+                    ("via", J::s(format!("{:?}", g.via))),
+                    ("dual_stack", J::B(g.dual)),
+                    ("routing_table_identity_and_record_variant", J::s(format!("{:?}", g.table))),
                     ("ops", J::A(g.ops.iter().take(step + 1).map(|op| J::s(coq_op(op))).collect())),
                 ]);
                 std::fs::write(&file, j.render()).unwrap();
@@ -583,7 +824,7 @@ pub fn main(args: &[String]) {
     w.flush();
     sum.case_files = w.files.clone();
     sum.rule = format!(
-        "respond/drop/hold/shutdown orders over real TalkRequest objects sharing one service-to-handler channel whose receiving end the harness holds: first the {} systematic cases (1..{} concurrent requests x every action vector x every order x every shutdown position, held requests dropped at the end), then random cases with up to 6 concurrent requests, interleaved deliveries, repeated (id, address) pairs, ids of 0..8 bytes; half of the cases obtain the objects from the real Service::handle_rpc_request + event stream, half from the hook constructor; every 8th case also runs 2..6 requests answered from separate threads (monitor only); non-trivial = two or more requests held at the same time or a shutdown with held requests; distinct = new result/occupancy trace",
+        "respond/drop/hold/shutdown orders over real TalkRequest objects sharing one service-to-handler channel whose receiving end the harness holds: first the {} systematic cases (1..{} concurrent requests x every action vector x every order x every shutdown position, held requests dropped at the end), then random cases with up to 6 concurrent requests, interleaved deliveries, repeated (id, address) pairs, ids of 0..8 bytes; 3/8 of the cases obtain the objects from the hook constructor, 2/8 from the real Service::handle_rpc_request (called directly, empty routing table) + event stream, 3/8 from the real service event loop (Service::start fed with HandlerOut::Request, IPv4 or dual-stack) whose routing table holds, for each of the 4 sender identities with probability 4/5, a record advertising another IP and port / the same IP and another port / exactly the source endpoint / an IPv4 and an IPv6 endpoint / no endpoint (4:2:1:2:1) - the monitor compares the destination node address of every response with the node address the request was delivered from; every 8th case also runs 2..6 requests answered from separate threads (monitor only); non-trivial = two or more requests held at the same time or a shutdown with held requests; distinct = new result/occupancy trace",
         sys_total, max_n
     );
     sum.write(&o.out);
